@@ -63,9 +63,15 @@ def run(repo: Repo, tier: str) -> Report:
         if isinstance(n, ast.FunctionDef):
             # keep the last definition (overloads precede the implementation)
             meth[n.name] = n
+    # functools.total_ordering derives the missing ordering methods from one defined root and __eq__ (`a <= b` = `a < b or a == b`):
+    # the derived methods order the integer line iff the root and __eq__ do and treat the same operand types alike, which is what the
+    # sibling obligations below demand of the methods that are written out.
+    total_ordering = any(ast.unparse(d).split(".")[-1] == "total_ordering" for d in cls.decorator_list)
+    ordering = ("__lt__", "__le__", "__gt__", "__ge__")
+    derived = [o for o in ordering if o not in meth] if total_ordering and any(o in meth for o in ordering) else []
     for need in ("__init__", "year", "month", "day", "idx", "yidx", "raw", "__str__", "__hash__", "__eq__", "__lt__",
                  "__le__", "__gt__", "__ge__", "start_date", "end_date", "ndays", "__add__", "__radd__", "__sub__"):
-        if need not in meth:
+        if need not in meth and need not in derived:
             raise AnalysisError(f"missing anchor: Dekad.{need} in {FILE}")
     rep.analysed = {"class": f"{FILE}:Dekad", "methods": sorted(meth)}
 
@@ -393,6 +399,10 @@ def run(repo: Repo, tier: str) -> Report:
     ops = {"__eq__": ast.Eq, "__lt__": ast.Lt, "__le__": ast.LtE, "__gt__": ast.Gt, "__ge__": ast.GtE}
     if "__ne__" in meth:
         ops["__ne__"] = ast.NotEq
+    for o in derived:
+        ops.pop(o)
+        root = next(x for x in ordering if x in meth)
+        rep.note(f"Dekad.{o} is derived by functools.total_ordering from {root} and __eq__")
     coerce_sets = {}
     for name, op in ops.items():
         fn = meth[name]
